@@ -633,6 +633,15 @@ func run(id, tier string, seed uint64) int {
 		cov["race_report_blocks"] = raceBlocks
 		cov["race_reports_distinct"] = raceDistinct
 	}
+	if tier == "thorough" || os.Getenv("VERIF_COVER") != "" {
+		ac, cerr := coverPass(id, seed)
+		if cerr != "" {
+			cov["anchor_statement_coverage_error"] = cerr
+		} else {
+			cov["anchor_statement_coverage"] = ac
+			cov["anchor_statement_coverage_note"] = "statements of the property's anchor files reached by the quick workload under go build -cover (observation device, decides nothing)"
+		}
+	}
 	ev := map[string]interface{}{
 		"property_id": id,
 		"tier":        tier,
@@ -675,6 +684,105 @@ func run(id, tier string, seed uint64) int {
 	}
 	fmt.Printf("HELD property=%s on everything explored\n", id)
 	return 0
+}
+
+// coverPass re-runs the quick workload of the property under Go's coverage instrumentation
+// (go build -cover -coverpkg=<library>) and reports, for the property's anchor files, how many
+// statements the monitors' workload actually reached. Observation only: it decides nothing.
+func coverPass(id string, seed uint64) (map[string]map[string]int, string) {
+	bin := filepath.Join(root, "bin", "vmon-cover")
+	args := []string{"build", "-tags", "verif", "-cover", "-coverpkg=github.com/paulmach/orb/...,verif/...", "-o", bin, "./cmd/vmon"}
+	cmd := exec.Command("go", args...)
+	cmd.Dir = root
+	cmd.Env = goEnv()
+	if out, err := cmd.CombinedOutput(); err != nil {
+		return nil, fmt.Sprintf("cover build failed: %v %s", err, out)
+	}
+	covDir := filepath.Join(workDir, "cov")
+	outDir := filepath.Join(workDir, "cov-out")
+	os.MkdirAll(covDir, 0755)
+	os.MkdirAll(outDir, 0755)
+	n := 8
+	if raceIDs[id] {
+		n = 1
+	}
+	var cmds []*exec.Cmd
+	for i := 0; i < n; i++ {
+		c := exec.Command(bin, "-prop", id, "-tier", "quick", "-seed", strconv.FormatUint(seed, 10), "-shard", strconv.Itoa(i), "-nshards", strconv.Itoa(n), "-out", outDir, "-rlimit-mb", "4096")
+		c.Dir = root
+		c.Env = append(os.Environ(), "GOCOVERDIR="+covDir)
+		if err := c.Start(); err == nil {
+			cmds = append(cmds, c)
+		}
+	}
+	done := make(chan bool, len(cmds))
+	for _, c := range cmds {
+		go func(c *exec.Cmd) { c.Wait(); done <- true }(c)
+	}
+	deadline := time.After(15 * time.Minute)
+	for range cmds {
+		select {
+		case <-done:
+		case <-deadline:
+			for _, c := range cmds {
+				c.Process.Kill()
+			}
+			return nil, "cover pass timed out"
+		}
+	}
+	txt := filepath.Join(workDir, "cov.txt")
+	cv := exec.Command("go", "tool", "covdata", "textfmt", "-i="+covDir, "-o", txt)
+	cv.Env = goEnv()
+	if out, err := cv.CombinedOutput(); err != nil {
+		return nil, fmt.Sprintf("covdata failed: %v %s", err, out)
+	}
+	// anchors of the property
+	anchors := map[string]bool{}
+	if pb, err := ioutil.ReadFile(filepath.Join(root, "properties.jsonl")); err == nil {
+		for _, line := range bytes.Split(pb, []byte("\n")) {
+			var pr struct {
+				ID      string `json:"id"`
+				Anchors struct {
+					Files []string `json:"files"`
+				} `json:"anchors"`
+			}
+			if json.Unmarshal(line, &pr) == nil && pr.ID == id {
+				for _, f := range pr.Anchors.Files {
+					anchors[f] = true
+				}
+			}
+		}
+	}
+	res := map[string]map[string]int{}
+	b, _ := ioutil.ReadFile(txt)
+	for _, line := range strings.Split(string(b), "\n") {
+		// github.com/paulmach/orb/clip/clip.go:12.2,14.3 2 1
+		const pfx = "github.com/paulmach/orb/"
+		if !strings.HasPrefix(line, pfx) {
+			continue
+		}
+		colon := strings.Index(line, ":")
+		f := strings.Fields(line)
+		if colon < 0 || len(f) != 3 {
+			continue
+		}
+		file := line[len(pfx):colon]
+		if !anchors[file] {
+			continue
+		}
+		stmts, _ := strconv.Atoi(f[1])
+		cnt, _ := strconv.Atoi(f[2])
+		m := res[file]
+		if m == nil {
+			m = map[string]int{}
+			res[file] = m
+		}
+		m["statements"] += stmts
+		if cnt > 0 {
+			m["reached"] += stmts
+		}
+	}
+	return res, ""
 }
 
 func oneLine(s string) string {
